@@ -112,13 +112,33 @@ def gen_case(r, pid=None):
             while comps[i0].get("same_as") is not None:
                 i0 = comps[i0]["same_as"]
             comps[j] = dict(comps[i0], same_as=i0)
+    # a component whose class is derived from an earlier component's class (thermal: ThermalSensor(Sensor) declared after
+    # left: Sensor): it inherits the base component's hooks and feedback getters and adds its own
+    for j in range(1, ncomp):
+        if (comps[j].get("same_as") is None and not comps[j]["sm"] and not any(c_.get("same_as") == j for c_ in comps)
+                and r.random() < 0.25):
+            cands_ = [i for i in range(j) if comps[i].get("same_as") is None and not comps[i]["sm"] and not comps[i]["preassign"]
+                      and not comps[i]["hook"] and not comps[i]["static_hooks"] and comps[i].get("derives_from") is None]
+            if cands_:
+                i0 = r.choice(cands_)
+                comps[j]["derives_from"] = i0
+                comps[j]["static_hooks"] = False
+                for h_ in ("has_setup", "has_enable", "has_disable"):
+                    comps[j][h_] = comps[j][h_] or comps[i0][h_]
     nfb_robot = r.choice([0, 0, 1, 2])
     fb_owners = [-1] * nfb_robot
     fb_fn = list(range(nfb_robot))
     own = {}
     for i in range(ncomp):
         src = comps[i].get("same_as")
-        if src is None:
+        if src is None and comps[i].get("derives_from") is not None:
+            k_ = r.choice([0, 1, 1, 2])
+            base_ = own[comps[i]["derives_from"]]
+            new_ = list(range(len(fb_owners) + len(base_), len(fb_owners) + len(base_) + k_))
+            own[i] = base_ + new_          # the inherited getters (the base component's functions) sort before the new ones
+            fb_fn += own[i]
+            fb_owners += [i] * len(own[i])
+        elif src is None:
             k_ = r.choice([0, 0, 1, 1, 2, 3])
             own[i] = list(range(len(fb_owners), len(fb_owners) + k_))
             fb_fn += own[i]
@@ -216,6 +236,12 @@ def gen_case(r, pid=None):
             if r.random() < 0.25:
                 case["writes"][str(k)] = [[r.randrange(ncomp), r.randrange(nattr), r.choice([1, 2, 5, 9, 42, -7])]
                                           for _ in range(r.choice([1, 1, 2]))]
+                for w_ in case["writes"][str(k)]:
+                    d_ = marked.get("%d,%d" % (w_[0], w_[1]))
+                    if d_ is not None and r.random() < 0.3:
+                        # user code stores something that compares equal to the declared default without being it (True for 1,
+                        # -0.0 for 0, 7.0 for 7): the reset puts the declared default itself back (500000 + d codes the object)
+                        w_[2] = 500000 + d_
     for k, s in enumerate(flat):
         if s[0] == "Feedback":
             case["fbval"][str(k)] = r.choice([0, 1, 2, 3, 10, 100, -5, k])
